@@ -53,9 +53,28 @@ META = {
              "WITHOUT the optional entries: xyz comment line without 'Box:' (TurtleMD takes the box from [engine.box], CP2K from its input template), "
              "xyz lines without velocity columns, .g96 without VELOCITY block, ASE Atoms without momenta and/or without cell (velocities then read "
              "as zeros); exhaustively combined with direction, vel_rev of the given point, subcycles and the place of the crossing for the "
-             "in-process engines, with every order function and both directions for CP2K and GROMACS."),
+             "in-process engines, with every order function and both directions for CP2K and GROMACS. "
+             "Clause 'an engine failure raises instead of returning a silently truncated path': the return code of the external program is SIGNED "
+             "(subprocess reports -N for a program killed by signal N) and the failure test of the three engines is modelled explicitly "
+             "(PollM.exit_failed: strict = `return_code != 0` / `poll != 0` as in /repo; the variant `> 0` is a model parameter): "
+             "C12_failure_test_is_nonzero, C12_signal_death_is_failure, C12_failure_tests_agree_on_exit_statuses (the two tests agree on every "
+             "exit status >= 0, which is why scenarios with positive exit codes cannot tell them apart), C12_{lammps,cp2k,gromacs}_failure_raises "
+             "(any code <> 0), C12_signal_death_raises (any negative code, all three engines, any schedule, died before any output or later) and "
+             "the refutations C12_{gromacs,lammps,cp2k}_signal_death_gt0_refuted (killed by SIGKILL after frames without a stop: the `> 0` variant "
+             "returns that truncated path, the code as it is raises). On the implementation, for EVERY external engine the fake program dies in each "
+             "of five ways - exit status 1, exit status 2, killed by SIGKILL, by SIGSEGV, by a SIGTERM infretis did not send (the fake kills itself "
+             "with the signal's default disposition, so the engine's Popen sees -9 / -11 / -15 and no SIGTERM marker is left) - at each stage: "
+             "before any output, after k = 0..5 complete frames (frames arriving one by one or at once), in the middle of frame k = 0..2 (CP2K: "
+             "also with only one of its two files torn), directly and behind both launcher scripts (the shell turns the signal into status 128+N); "
+             "oracle: whenever the stop rule does not fire among the complete frames, propagate must raise - returning a path that neither crossed "
+             "an interface nor reached the length limit is a VIOLATION with the scenario as replay; the model is compared with the signed code."),
     "note": ("Engines covered by the correspondence: LAMMPS, CP2K, GROMACS (real engine classes against fake lmp/cp2k/gmx executables), ASE, "
-             "TurtleMD, plug-in (in-process); AMS is not covered. Start files without optional entries: lammpstrj has none (box bounds and the "
+             "TurtleMD, plug-in (in-process); AMS is not covered. Engine failures: the fake programs die by exit status or by killing themselves "
+             "with SIGKILL / SIGSEGV / SIGTERM (py/plugins/fakemd.py, control key exit_signal; RLIMIT_CORE 0); a death by signal behind a launcher "
+             "script is seen by the engine as the shell's exit status 128+N (positive), directly as -N; which signal numbers the kernel maps to "
+             "which negative code is subprocess' contract, observed, not proved; in-process engines have no external program (no failure scenarios). "
+             "A stop among the frames that were completely written before the death makes a normal return legitimate (LAMMPS/CP2K read what is "
+             "left after the exit; GROMACS raises at once): judged against the model only. Start files without optional entries: lammpstrj has none (box bounds and the "
              "vx vy vz columns are required by read_lammpstrj / read_dump), a .g96 start file keeps its BOX block (GROMACS needs it), the "
              "lattice plug-in's one-number format has none. In the polling models such a start file is just another initial state (zero "
              "velocities / the engine's box); what it can change is which data EngineBase.calculate_order uses, so that function's 'all three "
@@ -771,7 +790,9 @@ def _run(ctx, runner, H, I, sysharness, rng, wdroot):
     calc_order_probe(ctx, runner, H, I, sysharness, wdroot)
     ctx.cov["rule"] = ("one evaluation = one propagate() call of a real engine class (plus the opposite-direction call for retrace cases), "
                        "compared with the extracted model and judged by the oracle; distinct = distinct case dicts; every case has a "
-                       "non-trivial trajectory (>= 1 frame) and interfaces chosen from its own order parameters")
+                       "non-trivial trajectory (>= 1 frame) and interfaces chosen from its own order parameters; failure scenarios: "
+                       "5 ways of dying (exit 1, exit 2, SIGKILL, SIGSEGV, foreign SIGTERM) x 3 stages (before any output, after k complete frames, "
+                       "mid-frame) per external engine, systematically and inside the seeded random families (distribution keys <engine>:death=...@...)")
     ctx.cov["trusted_base"] += [
         "extraction ExtrOcamlBasic + ocaml/c12_driver.ml + ocaml/util.ml",
         "py/plugins/fake_lmp.py, fake_cp2k.py, fake_gmx.py, fakemd.py: stand for LAMMPS/CP2K/GROMACS (file formats and timing contract only)",
@@ -781,7 +802,7 @@ def _run(ctx, runner, H, I, sysharness, rng, wdroot):
     ]
     ctx.assumptions += [
         "the fake programs write complete frames in the real formats and flush only at schedule points; real programs may differ in buffering (byte-level tearing is C13's property)",
-        "GROMACS: a program that dies between a frame header and its data block is not generated (the reader would wait forever; model outcome Hang)",
+        "a death by signal is produced by the fake program signalling itself; a signal delivered while the real program holds a partially flushed buffer may leave other byte-level remains (C13's property)",
         "time reversibility is a property of the dynamics (hypothesis of C12_backward_retraces_*): checked for free flight (fake programs) and harmonic velocity Verlet (ASE), not for TurtleMD (Langevin)",
     ]
 
